@@ -8,6 +8,7 @@ mod c10;
 mod c11;
 mod c12;
 mod c14;
+mod c16;
 mod interp;
 mod craft;
 mod gen_ss;
@@ -48,6 +49,7 @@ fn main() {
                 "C11" => c11::generate(&mut s, tier, &mut rng),
                 "C12" => c12::generate(&mut s, tier, &mut rng),
                 "C14" => c14::generate(&mut s, tier, &mut rng),
+                "C16" => c16::generate(&mut s, tier, &mut rng),
                 _ => {
                     eprintln!("unknown property {}", prop);
                     std::process::exit(2)
